@@ -175,6 +175,9 @@ func (this *Hnsw) Remove(id uuid.UUID) error {
 		for l := vertex.level; l >= 0; l-- {
 			vertex.edgeMutexes[l].RLock()
 			for neighbor, distance := range vertex.edges[l] {
+				if neighbor.isDeleted() {
+					continue
+				}
 				if distance < minDistance {
 					minDistance = distance
 					closestNeighbor = neighbor
@@ -185,6 +188,11 @@ func (this *Hnsw) Remove(id uuid.UUID) error {
 			if closestNeighbor != nil {
 				break
 			}
+		}
+		if closestNeighbor == nil {
+			// No live neighbor. Fall back to any stored vertex so that
+			// a non-empty index always has an entrypoint.
+			closestNeighbor = this.anyVertex()
 		}
 		atomic.CompareAndSwapPointer(&this.entrypoint, currEntrypoint, unsafe.Pointer(closestNeighbor))
 	}
@@ -253,6 +261,18 @@ func (this *Hnsw) RandomLevel() int {
 func (this *Hnsw) getVerticesShard(id uuid.UUID) (map[uuid.UUID]*hnswVertex, *sync.RWMutex) {
 	shardIdx := utils.UuidMod(id, uint64(VERTICES_MAP_SHARD_COUNT))
 	return this.vertices[shardIdx], this.verticesMu[shardIdx]
+}
+
+func (this *Hnsw) anyVertex() *hnswVertex {
+	for i := range this.vertices {
+		this.verticesMu[i].RLock()
+		for _, vertex := range this.vertices[i] {
+			this.verticesMu[i].RUnlock()
+			return vertex
+		}
+		this.verticesMu[i].RUnlock()
+	}
+	return nil
 }
 
 func (this *Hnsw) storeVertex(vertex *hnswVertex) error {
